@@ -170,6 +170,10 @@ def _decisions(case):
 def impl_clump(case):
     from haptools import clump as K
 
+    if case["ld"] == "Pearson" and _decisions(case)[1]:
+        # an exact r2 within 1e-6 of the threshold: the float comparison is not decidable from exact values
+        return {"near_threshold": True}
+
     names = case["names"] or {}
     nm = lambda k: names.get(k, k)
     st = _dir / "stats.txt"
@@ -235,6 +239,8 @@ def model_req_clump(case):
 
 
 def model_obs_clump(case, resp):
+    if case["ld"] == "Pearson" and _decisions(case)[1]:
+        return {"near_threshold": True}
     order = case["order"]
     return {"clumps": [[order[i], [order[m] for m in mem]] for i, mem in resp["clumps"]], "header": ["ID", "CHROM", "POS", "P", "VARTYPE", "CLUMPVARS"]}
 
@@ -248,6 +254,8 @@ def oracle_clump(case, obs):
     """greedy clumping re-derived from the statement (pure Python, exact rationals)"""
     if "error" in obs:
         return f"clumpstr raised {obs}"
+    if obs.get("near_threshold"):
+        return None
     ld, near = _decisions(case)
     if near or case["ld"] == "Exact":
         # float r2 too close to the threshold, or the maximum-likelihood estimator: membership is not decidable
@@ -278,6 +286,8 @@ def oracle_clump(case, obs):
 
 
 def describe_clump(case, obs):
+    if isinstance(obs, dict) and obs.get("near_threshold"):
+        return ["skipped-r2-within-1e-6-of-threshold"]
     tags = [case["ld"], "pgen" if case["pgen"] else "vcf", f"clumps={len(obs.get('clumps', [])) if isinstance(obs, dict) else 'err'}"]
     ps = [v["p"] for v in case["variants"]]
     if len(set(ps)) < len(ps):
